@@ -8,10 +8,13 @@ pub mod c08;
 pub mod c09;
 pub mod c10;
 pub mod c11;
+pub mod c12;
 pub mod c13;
+pub mod c14;
+pub mod c15;
 
 pub fn ids() -> Vec<&'static str> {
-    vec!["C05", "C07", "C08", "C09", "C10", "C11", "C13"]
+    vec!["C05", "C07", "C08", "C09", "C10", "C11", "C12", "C13", "C14", "C15"]
 }
 
 pub fn property(id: &str) -> Option<Property> {
@@ -22,7 +25,10 @@ pub fn property(id: &str) -> Option<Property> {
         "C09" => c09::property(),
         "C10" => c10::property(),
         "C11" => c11::property(),
+        "C12" => c12::property(),
         "C13" => c13::property(),
+        "C14" => c14::property(),
+        "C15" => c15::property(),
         _ => return None,
     })
 }
